@@ -177,6 +177,14 @@ def run_tlc(
     return r
 
 
+# Invariants of the specifications that speak about internal state only (thread counts of an FFT, which kernel variant
+# ran, whether a worker reset the inherited state, whether a task was taken twice).  A recorded trace that violates one of
+# them deviates from the DESIGN the specification describes, but no listed property observes it (results are compared
+# separately, bit for bit): reported as drift, never as a VIOLATION.
+INTERNAL_INVARIANTS = {"Pure", "ManagerSingleAfterSolve", "KernelMatchesSetting", "NumbaFollowsSetting", "InitBeforeSolve", "EveryTaskOnce",
+                       "WorkerFFTsSingle", "WorkerSolvesReset"}
+
+
 # ----------------------------------------------------------------- known findings
 
 
